@@ -125,3 +125,97 @@ Proof.
   - destruct ta1, ta2; simpl in Hn; try discriminate; split; intro; try reflexivity; discriminate.
   - intro Hne. apply Hh. destruct ta1; [contradiction | reflexivity].
 Qed.
+
+(* ------------------------------------------------------------------ *)
+(* the class namespace as a method table: setattr(cls, name, f) overwrites.  Registering the generated
+   method of every (direction, declared format, with/without codec) under its K11 name - in ANY order -
+   leaves each of them retrievable under its own name: formats never overwrite each other. *)
+Require Import Coq.Sorting.Permutation.
+
+Definition cfg := (dir * string * bool)%type.          (* direction, format name, codec given *)
+
+Definition cfg_name (c: cfg) : string :=
+  match c with (d, f, e) =>
+    match mname d "" [] f (if e then KObj 1 else KNone) with Ok (KStr n) => n | _ => "" end end.
+
+(* "dict" has one method per direction (the codec argument is ignored for it) *)
+Definition all_cfgs : list cfg :=
+  flat_map (fun d => (d, default_format_name, false)
+                     :: flat_map (fun f => [(d, f, false); (d, f, true)]) mixin_format_names)
+           [DPack; DUnpack].
+
+Section Table.
+  Context {A: Type}.
+  Fixpoint t_get (t: list (string * A)) (k: string) : option A :=
+    match t with [] => None | (k', v) :: r => if String.eqb k' k then Some v else t_get r k end.
+  Fixpoint t_set (t: list (string * A)) (k: string) (v: A) : list (string * A) :=
+    match t with
+    | [] => [(k, v)]
+    | (k', x) :: r => if String.eqb k' k then (k', v) :: r else (k', x) :: t_set r k v end.
+
+  Lemma t_get_set_same t k v : t_get (t_set t k v) k = Some v.
+  Proof.
+    induction t as [|[k' x] r IH]; simpl.
+    - rewrite String.eqb_refl. reflexivity.
+    - destruct (String.eqb k' k) eqn:E; simpl; rewrite E; [reflexivity | exact IH].
+  Qed.
+
+  Lemma t_get_set_other t k m v : k <> m -> t_get (t_set t k v) m = t_get t m.
+  Proof.
+    intro NE. induction t as [|[k' x] r IH]; simpl.
+    - destruct (String.eqb k m) eqn:E; [apply String.eqb_eq in E; contradiction | reflexivity].
+    - destruct (String.eqb k' k) eqn:E; simpl.
+      + apply String.eqb_eq in E. subst k'.
+        destruct (String.eqb k m) eqn:E2; [apply String.eqb_eq in E2; contradiction | reflexivity].
+      + destruct (String.eqb k' m); [reflexivity | exact IH].
+  Qed.
+
+  Definition register (t: list (string * A)) (l: list (string * A)) : list (string * A) :=
+    fold_left (fun t kv => t_set t (fst kv) (snd kv)) l t.
+
+  Lemma register_other l : forall t m, ~ In m (map fst l) -> t_get (register t l) m = t_get t m.
+  Proof.
+    induction l as [|[k v] r IH]; intros t m H; simpl; [reflexivity|].
+    rewrite IH by (intro; apply H; right; assumption).
+    apply t_get_set_other. intro; subst. apply H. left. reflexivity.
+  Qed.
+
+  Lemma register_get l : forall t k v, NoDup (map fst l) -> In (k, v) l -> t_get (register t l) k = Some v.
+  Proof.
+    induction l as [|[k' v'] r IH]; intros t k v ND Hin; [contradiction|].
+    simpl in ND. inversion ND as [|? ? NI ND']; subst. simpl.
+    destruct Hin as [Heq|Hin].
+    - inversion Heq; subst. rewrite register_other by exact NI. apply t_get_set_same.
+    - apply IH; assumption.
+  Qed.
+End Table.
+
+Fixpoint nodupb_str (l: list string) : bool :=
+  match l with [] => true | x :: r => negb (existsb (String.eqb x) r) && nodupb_str r end.
+
+Lemma nodupb_str_NoDup l : nodupb_str l = true -> NoDup l.
+Proof.
+  induction l as [|x r IH]; simpl; intro H; [constructor|].
+  apply andb_true_iff in H. destruct H as [H1 H2]. constructor; [|apply IH; exact H2].
+  intro Hin. apply negb_true_iff in H1.
+  assert (existsb (String.eqb x) r = true) as E
+      by (apply existsb_exists; exists x; split; [exact Hin | apply String.eqb_refl]).
+  rewrite E in H1. discriminate.
+Qed.
+
+(* the names of all declared configurations are pairwise distinct (finite: computed on the translated code) *)
+Lemma all_cfg_names_distinct : nodupb_str (map cfg_name all_cfgs) = true.
+Proof. vm_compute. reflexivity. Qed.
+
+Theorem method_table_no_overwrite : forall (order: list cfg) (c: cfg),
+  Permutation order all_cfgs -> In c all_cfgs ->
+  t_get (register [] (map (fun x => (cfg_name x, x)) order)) (cfg_name c) = Some c.
+Proof.
+  intros order c HP Hin. apply register_get.
+  - rewrite map_map. simpl.
+    apply (Permutation_NoDup (l := map cfg_name all_cfgs)).
+    + apply Permutation_map. apply Permutation_sym. exact HP.
+    + apply nodupb_str_NoDup. exact all_cfg_names_distinct.
+  - apply in_map_iff. exists c. split; [reflexivity|].
+    apply (Permutation_in c (Permutation_sym HP)). exact Hin.
+Qed.
